@@ -534,12 +534,16 @@ func (c *Conn) Parse(data []byte) (retErr error) {
 								return
 							}
 						}
-						c.msgType = 0
-						c.compress = false
-						c.expectingFragments = false
-					} else {
-						c.expectingFragments = true
 					}
+				}
+				// the message ends with its final frame, whether it is
+				// assembled here or handed over frame by frame.
+				if fin {
+					c.msgType = 0
+					c.compress = false
+					c.expectingFragments = false
+				} else {
+					c.expectingFragments = true
 				}
 			case PingMessage, PongMessage, CloseMessage:
 				isProtocolMessage = true
